@@ -2,6 +2,7 @@ package main
 
 import (
 	"go/ast"
+	"go/constant"
 	"go/token"
 	"sort"
 	"strings"
@@ -296,5 +297,177 @@ func init() {
 			return true
 		})
 		c.Fact("typedtool.outval_rules", nilRule)
+	})
+}
+
+// E12 (C16), protocol versions: the table `Generated.TypedTool` (the SDK's supported versions, the version
+// from which (*Server).callTool marks results with a resultType — clientSupportsMultiRoundTrip —, and the
+// members of the wrapper's result that callTool assigns after the handler returned) and the facts about
+// what the dispatcher does with the wrapper's result on its way to the peer: the Lean model `deliver`
+// (Model.lean) transliterates exactly this, and `structured content at every protocol version` is proved
+// of it.
+func init() {
+	reg(func(c *Ctx) {
+		var b strings.Builder
+		b.WriteString("namespace Generated.TypedTool\n")
+		str := func(e ast.Expr) (string, bool) {
+			v, ok := c.Const("mcp", e)
+			if !ok || v.Kind() != constant.String {
+				return "", false
+			}
+			return constant.StringVal(v), true
+		}
+		// supportedProtocolVersions
+		var versions []string
+		if cl, ok := c.ValueExpr("mcp", "supportedProtocolVersions").(*ast.CompositeLit); ok {
+			for _, el := range cl.Elts {
+				if s, ok := str(el); ok {
+					versions = append(versions, s)
+				} else {
+					c.Errf("typedtool: supportedProtocolVersions: element %s is not a string constant", c.Src(el))
+				}
+			}
+		} else {
+			c.Errf("typedtool: supportedProtocolVersions is not a composite literal")
+		}
+		b.WriteString("/-- mcp/shared.go `supportedProtocolVersions` (newest first) -/\n")
+		b.WriteString("def supportedProtocolVersions : List String := " + LeanStrList(versions) + "\n")
+		latest, ok := c.ConstString("mcp", "latestProtocolVersion")
+		if !ok {
+			c.Errf("typedtool: latestProtocolVersion not found")
+		}
+		b.WriteString("/-- mcp/shared.go `latestProtocolVersion`: what the SDK client asks for when left alone -/\n")
+		b.WriteString("def latestProtocolVersion : String := " + LeanStr(latest) + "\n")
+
+		// clientSupportsMultiRoundTrip: `protocolVersion := <default>`; `if iparams := ss.InitializeParams(); iparams != nil
+		// { protocolVersion = iparams.ProtocolVersion }`; `return protocolVersion >= <since>`
+		since, dflt := "", ""
+		var shape []string
+		if fd := c.Func("mcp", "", "clientSupportsMultiRoundTrip"); fd != nil {
+			for _, st := range fd.Body.List {
+				shape = append(shape, c.Src(st))
+				switch x := st.(type) {
+				case *ast.AssignStmt:
+					if len(x.Lhs) == 1 && len(x.Rhs) == 1 && c.Src(x.Lhs[0]) == "protocolVersion" {
+						dflt, _ = str(x.Rhs[0])
+					}
+				case *ast.ReturnStmt:
+					if len(x.Results) == 1 {
+						if be, ok := x.Results[0].(*ast.BinaryExpr); ok && be.Op == token.GEQ && c.Src(be.X) == "protocolVersion" {
+							since, _ = str(be.Y)
+						}
+					}
+				}
+			}
+		} else {
+			c.Errf("typedtool: clientSupportsMultiRoundTrip not found")
+		}
+		if since == "" || dflt == "" {
+			c.Errf("typedtool: clientSupportsMultiRoundTrip: cannot read the version test (%v)", shape)
+		}
+		c.Fact("typedtool.clientSupportsMultiRoundTrip", shape)
+		b.WriteString("/-- mcp/mrtr.go `clientSupportsMultiRoundTrip`: `protocolVersion >= multiRoundTripSince` -/\n")
+		b.WriteString("def multiRoundTripSince : String := " + LeanStr(since) + "\n")
+		b.WriteString("/-- … of a session without InitializeParams -/\n")
+		b.WriteString("def multiRoundTripDefault : String := " + LeanStr(dflt) + "\n")
+
+		// (*Server).callTool after `st.handler(ctx, req)`: which members of a result are assigned, which
+		// functions are called, which conditions are tested
+		var assigns, calls, conds []string
+		if fd := c.Func("mcp", "Server", "callTool"); fd != nil {
+			var after token.Pos
+			ast.Inspect(fd.Body, func(n ast.Node) bool {
+				if ce, ok := n.(*ast.CallExpr); ok && c.Src(ce.Fun) == "st.handler" && after == 0 {
+					after = ce.End()
+				}
+				return true
+			})
+			if after == 0 {
+				c.Errf("typedtool: callTool: the call st.handler(ctx, req) not found")
+			}
+			ast.Inspect(fd.Body, func(n ast.Node) bool {
+				if n == nil || after == 0 || n.Pos() < after {
+					return true
+				}
+				switch x := n.(type) {
+				case *ast.AssignStmt:
+					for _, l := range x.Lhs {
+						if se, ok := l.(*ast.SelectorExpr); ok {
+							assigns = append(assigns, se.Sel.Name)
+						}
+					}
+				case *ast.CallExpr:
+					calls = append(calls, c.Src(x.Fun))
+				case *ast.IfStmt:
+					cond := c.Src(x.Cond)
+					if x.Init != nil {
+						cond = c.Src(x.Init) + "; " + cond
+					}
+					conds = append(conds, cond)
+				}
+				return true
+			})
+		} else {
+			c.Errf("typedtool: (*Server).callTool not found")
+		}
+		c.Fact("typedtool.callTool_after_handler_assigns", assigns)
+		c.Fact("typedtool.callTool_after_handler_calls", calls)
+		c.Fact("typedtool.callTool_after_handler_conditions", conds)
+		b.WriteString("/-- mcp/server.go `(*Server).callTool`: the members of a CallToolResult assigned after the tool's handler returned -/\n")
+		b.WriteString("def callToolAssigns : List String := " + LeanStrList(assigns) + "\n")
+
+		// handleMultiRoundTripResult: the only use of the session is the version test around setResultType
+		var mrt []string
+		if fd := c.Func("mcp", "", "handleMultiRoundTripResult"); fd != nil {
+			ast.Inspect(fd.Body, func(n ast.Node) bool {
+				switch x := n.(type) {
+				case *ast.IfStmt:
+					mrt = append(mrt, "if("+c.Src(x.Cond)+")")
+				case *ast.CallExpr:
+					if se, ok := x.Fun.(*ast.SelectorExpr); ok && c.Src(se.X) == "res" {
+						mrt = append(mrt, c.Src(x))
+					}
+				case *ast.ReturnStmt:
+					if len(x.Results) == 1 && c.Src(x.Results[0]) != "nil" {
+						mrt = append(mrt, "return-error")
+					}
+				}
+				return true
+			})
+		} else {
+			c.Errf("typedtool: handleMultiRoundTripResult not found")
+		}
+		c.Fact("typedtool.handleMultiRoundTripResult_steps", mrt)
+
+		// the typed wrapper itself does not look at the session, the peer or the protocol version: every use of
+		// `req` inside the handler closure of toolForErr
+		var reqUses []string
+		if tf := c.Func("mcp", "", "toolForErr"); tf != nil {
+			seen := map[string]bool{}
+			ast.Inspect(tf.Body, func(n ast.Node) bool {
+				switch x := n.(type) {
+				case *ast.SelectorExpr:
+					if id, ok := x.X.(*ast.Ident); ok && id.Name == "req" {
+						if s := c.Src(x); !seen[s] {
+							seen[s] = true
+							reqUses = append(reqUses, s)
+						}
+					}
+				case *ast.Ident:
+					if strings.Contains(x.Name, "rotocolVersion") || x.Name == "InitializeParams" {
+						if !seen[x.Name] {
+							seen[x.Name] = true
+							reqUses = append(reqUses, x.Name)
+						}
+					}
+				}
+				return true
+			})
+			sort.Strings(reqUses)
+		}
+		c.Fact("typedtool.wrapper_request_uses", reqUses)
+
+		b.WriteString("end Generated.TypedTool\n")
+		c.Lean["TypedToolGen"] = b.String()
 	})
 }
